@@ -146,6 +146,10 @@ class Adapter:
         if self.kind == 'ttest':
             self.o.compute()
             return {'mean': np.array(self.o.mean, dtype='float64'), 'var': np.array(self.o.var, dtype='float64')}
+        if self.kind == 'tplb':
+            # the whole profile is the result of a build: class means AND the pooled covariance with its pseudo-inverse
+            t_ = np.array(self.o.compute())
+            return {'templates': t_, 'pooled_covariance': np.array(self.o.pooled_covariance), 'pooled_covariance_inv': np.array(self.o.pooled_covariance_inv)}
         return np.array(self.o.compute())
 
     # ---- projection ---------------------------------------------------------------------------------
@@ -202,9 +206,17 @@ class Adapter:
     def snapshot(self):
         """Bit-level snapshot of every accumulator (values, shape, dtype) + count, for purity comparisons."""
         raw = {}
+        profile = {}
+        if self.kind in ('tplm', 'tpld'):
+            # the profile a matching distinguisher was given (templates, covariance, its inverse) is configuration, not accumulated state: it stays what it was
+            for attr in ('templates', 'pooled_covariance', 'pooled_covariance_inv'):
+                val = getattr(self.o, attr, None)
+                if isinstance(val, np.ndarray):
+                    profile['profile:' + attr] = (val.shape, val.dtype.str, np.ascontiguousarray(val).tobytes())
         if self.kind != 'ttest' and not hasattr(self.o, '_origin_shape'):
             # arrays left behind by a refused first call are dead state (re-created by the next valid call)
-            return {'processed_traces': int(self.o.processed_traces), '_has_origin': False}
+            return dict(profile, processed_traces=int(self.o.processed_traces), _has_origin=False)
+        raw.update(profile)
         for attr, val in sorted(vars(self.o).items()):
             if attr in ('_timings', '_origin_shape', 'mean', 'var', '_is_checked') or attr.startswith('_tstate') or attr in ('pooled_covariance', 'pooled_covariance_inv'):
                 continue
